@@ -430,6 +430,9 @@ def run_case(ctx, rng):
     stored = list(rows)
     random.Random(len(rows) * 7 + sum(r['n'] or 0 for r in rows)).shuffle(stored)
     db.executemany(INSERT, stored)
+    if len(rows) % 2:
+        # (the database has an index on the column the grouping method groups by - a descending one)
+        db.execute("CREATE INDEX t_n_desc ON t (n DESC)")
     percent_s = rng.random() < 0.2
     conn = (MysqlLikeConn if percent_s else Conn)(db)
     conds = [gen_cond(rng) for _ in range(rng.choice([0, 1, 1, 2, 2, 3, 4]))]
@@ -670,7 +673,33 @@ def run_case(ctx, rng):
         ctx.violation("table-modified", {"sql": sql}, case)
     if len(all_conds) >= 2 and len(rows) >= 3 and any(interesting(c) for c in all_conds):
         ctx.nontrivial(sig_of([rows, all_conds]))
+    star_scalars(ctx, db, conn, rows, case)
     return case
+
+
+_STAR = [0]
+
+
+def star_scalars(ctx, db, conn, rows, case):
+    """a long-lived method "SELECT * ..." made with as_scalars=True over a view whose definition differs between the
+    databases it meets (an older schema has one column, a newer one three): the first elements of the rows, whatever
+    the method has seen before"""
+    _STAR[0] += 1
+    if _STAR[0] % 4 not in (1, 2):
+        return
+    if "star-scalars" not in _METHODS:
+        _METHODS["star-scalars"] = SqlMethod("SELECT * FROM v", as_scalars=True, order_by="id")
+    db.execute("CREATE VIEW v AS SELECT id FROM t" if _STAR[0] % 4 == 1 else "CREATE VIEW v AS SELECT id, n, s FROM t")
+    try:
+        got = list(_METHODS["star-scalars"].list(conn))
+    except Exception as err:
+        ctx.violation("query-raises", {"type": type(err).__name__, "msg": str(err)[:150], "select": "SELECT * FROM v"}, case)
+        return
+    ctx.count("scalars_of_a_select_star_over_changing_schemas")
+    want = sorted(r['id'] for r in rows)
+    if got != want:
+        ctx.violation("rows-differ-from-three-valued-evaluation", {"got": got[:12], "expected": want[:12],
+                                                                   "stmt": conn.log[-1], "as_scalars": True}, case)
 
 
 def run_shard(ctx):
